@@ -39,6 +39,8 @@ type (
 
 		state   clientSocketConnectionState
 		stateMu sync.RWMutex
+		// The connection (`Manager.connEpoch` + 1) that the last CONNECT packet was sent with.
+		connectSentEpoch uint64
 		// Whether the end of the current connection was already reported (see onClose).
 		closeReported bool
 
@@ -189,11 +191,17 @@ func (s *clientSocket) registerSubEvents() {
 		openFunc ManagerOpenFunc = func() {
 			s.stateMu.Lock()
 			defer s.stateMu.Unlock()
-			if s.state == clientSocketConnStateConnectPending {
+			// `Connect` sends the CONNECT packet itself when it finds the manager connected, and
+			// that can happen before the open handlers of that very connection have run. The reply
+			// might even be in already (the state is not `connect pending` any more then).
+			// A second CONNECT packet for the namespace makes the server close the connection.
+			epoch := s.manager.connEpoch.Load() + 1
+			if s.state != clientSocketConnStateDisconnected && s.connectSentEpoch == epoch {
 				return
 			}
 			s.state = clientSocketConnStateConnectPending
 			s.closeReported = false
+			s.connectSentEpoch = epoch
 			s.onOpen()
 		}
 		errorFunc ManagerErrorFunc = func(err error) {
@@ -254,6 +262,7 @@ func (s *clientSocket) Connect() {
 	if managerConnState == clientConnStateConnected && s.state != clientSocketConnStateConnectPending {
 		s.state = clientSocketConnStateConnectPending
 		s.closeReported = false
+		s.connectSentEpoch = s.manager.connEpoch.Load() + 1
 		s.onOpen()
 	}
 }
